@@ -9,7 +9,9 @@
 (*           G.1) as extended by F&O 5.6.1 for Mode "xp2" / "xp3"          *)
 (*   why     "ok", or the first rule that fails: "badesc" (not an XSD       *)
 (*           escape), "grammar", "classdash" (derivable only if an         *)
-(*           unescaped '-' may stand anywhere in a class), "ncg" (derivable *)
+(*           unescaped '-' may stand anywhere in a class), "escrange" (the  *)
+(*           same, and a multi-character escape stands where a range end   *)
+(*           point is expected: x-\d), "ncg" (derivable                    *)
 (*           only with the non-capturing groups of XPath 3.0), "backref"   *)
 (*   unsure  the verdict depends on rules this module leaves out (position *)
 (*           of an unescaped '-' in a class under XSD 1.1): no vector      *)
@@ -139,16 +141,22 @@ Strict  == [strict |-> TRUE,  ncg |-> Mode = "xp3"]
 Relaxed == [strict |-> FALSE, ncg |-> Mode = "xp3"]
 WithNcg == [strict |-> TRUE,  ncg |-> TRUE]
 
+(* x-\d : a multi-character escape where the END point of a range is expected (invalid in XSD 1.0 and 1.1) *)
+EscRangeEnd(w) == \E p \in 1..(Len(w) - 2) : /\ w[p] \in PlainInClass \cup SingleEsc /\ w[p + 1] = "-"
+                                              /\ w[p + 2] \in MultiEsc /\ ClsDepth(w, p - 1) > 0
+
 Why(w) == IF ~NoBadEsc(w) THEN "badesc"
           ELSE IF ~NoBackrefInClass(w) THEN "grammar"
           ELSE IF ~Derivable(w, Strict) THEN (IF Derivable(w, WithNcg) THEN "ncg"
-                                             ELSE IF Derivable(w, Relaxed) THEN "classdash" ELSE "grammar")
+                                             ELSE IF Derivable(w, Relaxed)
+                                                  THEN (IF EscRangeEnd(w) THEN "escrange" ELSE "classdash")
+                                                  ELSE "grammar")
           ELSE IF ~BackrefOK(w, Strict) THEN "backref" ELSE "ok"
 
 Set(w) == /\ toks' = w
           /\ valid' = Valid(w, Strict)
           /\ why' = Why(w)
-          /\ unsure' = (XsdVersion = "1.1" /\ Valid(w, Strict) # Valid(w, Relaxed))
+          /\ unsure' = (XsdVersion = "1.1" /\ Valid(w, Strict) # Valid(w, Relaxed) /\ ~EscRangeEnd(w))
           /\ qsub' = SubStrings(w)
 
 Init == toks = <<>> /\ valid = TRUE /\ why = "ok" /\ unsure = FALSE /\ qsub = {<<>>}
